@@ -9,7 +9,7 @@ from vlib.par import pmap
 from vlib.tlc import MachineryError
 
 UNDECIDED = ["convergence of the hydrostatic and the general IWV formulation for a hydrostatic moist column",
-             "isothermal law z = (R T / g) ln(p0 / p)", "standard-atmosphere interpolation in height / log-pressure"]
+             "isothermal law z = (R T / g) ln(p0 / p)", "standard-atmosphere interpolation in log-pressure BETWEEN the tabulated levels"]
 
 
 def replay_trapz(col, case):
@@ -118,7 +118,79 @@ def replay_atmos(col, case):
             col.violation("crh-laws", dict(rep, expected=[1.0, 0.25], observed=[float(one), float(quarter)]))
     except Exception as ex:
         col.violation("crh-raises-" + type(ex).__name__, dict(rep, observed=repr(ex)[:200]))
+    # ... for fields of any rank, integrated along any axis, with the 1-d pressure grid: every column is saturated with
+    # respect to its OWN temperatures (the stand-in saturation pressure depends on T, T differs from column to column)
+    n = len(p)
+    pp = p * 1024.0
+    sat = lambda t: 2.0 * np.asarray(t, dtype=float)
+    for shape, axis in (((n, 2), 0), ((n, n), 0), ((n, n + 2), 0), ((3, n), 1), ((n, n), 1), ((2, n, 3), 1), ((n, 2, 3), 0),
+                        ((2, 3, n), 2), ((n, n, n), 0), ((n, n, n), 2)):
+        other = int(np.prod(shape)) // n
+        cols = (T * 16.0)[:, None] * (1.0 + 0.125 * np.arange(other))[None, :]          # (levels, columns), exact in binary
+        shp_moved = (n,) + tuple(d for i, d in enumerate(shape) if i != axis)
+        Tf = np.ascontiguousarray(np.moveaxis(cols.reshape(shp_moved), 0, axis))
+        pb = pp.reshape((n,) + (1,) * (len(shape) - 1))
+        try:
+            with patched(A, e_eq_mixed_mk=lambda t: sat(t).copy()):
+                qs_moved = A.water_vapor_pressure2specific_humidity(sat(np.moveaxis(Tf, axis, 0)), pb)
+                qs = np.ascontiguousarray(np.moveaxis(qs_moved, 0, axis))
+                one = A.column_relative_humidity(qs.copy(), pp.copy(), Tf.copy(), axis=axis)
+                quarter = A.column_relative_humidity(0.25 * qs, pp.copy(), Tf.copy(), axis=axis)
+            col.count(1)
+            want_shape = tuple(d for i, d in enumerate(shape) if i != axis)
+            if np.shape(one) != want_shape or not allclose(one, np.ones(want_shape), rel=1e-11) \
+                    or not allclose(quarter, np.full(want_shape, 0.25), rel=1e-11):
+                col.violation("crh-laws-rank%d-axis%d" % (len(shape), axis),
+                              dict(rep, shape=list(shape), axis=axis, expected=[1.0, 0.25],
+                                   observed=[np.asarray(one).tolist(), np.asarray(quarter).tolist()]))
+        except Exception as ex:
+            col.violation("crh-raises-%s-rank%d-axis%d" % (type(ex).__name__, len(shape), axis),
+                          dict(rep, shape=list(shape), axis=axis, observed=repr(ex)[:200]))
     col.nontrivial.add(json.dumps(case["p"]))
+
+
+def replay_isa(col, cases):
+    """IsaProps: the tabulated standard atmosphere in height coordinates (exact), both addressings at the levels,
+    and pressure2height without a temperature = pressure2height with the standard temperatures."""
+    import typhon.physics.atmosphere as A
+    zs = np.array([float(c["z"]) for c in cases])
+    want = np.array([fl(c["t"]) for c in cases])
+    rep = {"abstract": {"z": zs.tolist()}}
+    try:
+        got = np.array([float(A.standard_atmosphere(z)) for z in zs])
+        got_arr = np.asarray(A.standard_atmosphere(zs.copy()), dtype=float)
+        got_int = np.asarray(A.standard_atmosphere(zs.astype(int)), dtype=float)
+        col.count(3 * len(zs))
+        for label, g in (("scalar", got), ("array", got_arr), ("int-array", got_int)):
+            if g.shape != want.shape or not np.all(np.abs(g - want) <= 1e-12 * want):
+                bad = [i for i in range(len(zs))] if g.shape != want.shape else np.nonzero(np.abs(g - want) > 1e-12 * want)[0].tolist()
+                beyond = all(zs[i] < -610 or zs[i] > 84852 for i in bad)
+                col.violation("standard-atmosphere-wrong-%s-%s" % ("beyond-table" if beyond else "value", label),
+                              dict(rep, expected=want.tolist(), observed=g.tolist(), at=[zs[i] for i in bad]))
+    except Exception as ex:
+        col.violation("standard-atmosphere-raises-" + type(ex).__name__, dict(rep, observed=repr(ex)[:200]))
+    lev = sorted((c for c in cases if c["level"]), key=lambda c: c["level"])
+    pl = np.array([fl(c["p"]) for c in lev])
+    tl = np.array([fl(c["t"]) for c in lev])
+    rep = {"abstract": {"p": pl.tolist(), "T": tl.tolist()}}
+    try:
+        gp = np.asarray(A.standard_atmosphere(pl.copy(), coordinates="pressure"), dtype=float)
+        col.count(len(pl))
+        if gp.shape != tl.shape or not np.all(np.abs(gp - tl) <= 1e-12 * tl):
+            col.violation("standard-atmosphere-addressings-disagree-at-levels", dict(rep, expected=tl.tolist(), observed=gp.tolist()))
+    except Exception as ex:
+        col.violation("standard-atmosphere-raises-" + type(ex).__name__, dict(rep, observed=repr(ex)[:200]))
+    for lo, hi in ((0, 8), (0, 3), (1, 5), (4, 8), (6, 8)):
+        try:
+            a = A.pressure2height(pl[lo:hi].copy())
+            b = A.pressure2height(pl[lo:hi].copy(), tl[lo:hi].copy())
+            col.count(1)
+            if not allclose(a, b, rel=1e-12):
+                col.violation("pressure2height-default-is-not-the-standard-atmosphere",
+                              dict(rep, levels=[lo + 1, hi], expected=np.asarray(b).tolist(), observed=np.asarray(a).tolist()))
+        except Exception as ex:
+            col.violation("pressure2height-raises-" + type(ex).__name__, dict(rep, observed=repr(ex)[:200]))
+    col.nontrivial.add("isa")
 
 
 def run(ctx):
@@ -128,6 +200,9 @@ def run(ctx):
                 "on integer data and emits arrays of rank 1-3 with the doubled integrals along each axis; AtmosCases gives "
                 "IWV (both forms), layer heights and CRH laws as exact rationals for stand-in constants; the real functions "
                 "are evaluated on the same exactly representable floats (typhon.constants patched, canary-guarded). "
+                "CRH is replayed for fields of rank 1-3 along every axis. IsaProps transcribes the tabulated standard atmosphere "
+                "(piecewise linear in height, linearly continued beyond the table): exact temperatures at 22 heights, both "
+                "addressings at the 8 tabulated levels, and pressure2height(p) = pressure2height(p, T_ISA) on level columns. "
                 "Non-trivial: irregular or decreasing grids, every atmospheric profile.")
     d = ctx.tlc_dir("num")
     with open(os.path.join(d, "MCTrapzL.cfg"), "w") as f:
@@ -148,6 +223,12 @@ def run(ctx):
     if len(acases) != 4:
         raise MachineryError("expected 4 atmospheric profiles")
     pmap(ctx, replay_atmos, acases, procs=1)
+    res = ctx.tlc(d, "IsaProps", "IsaProps.cfg", workers=1, timeout=600)
+    icases = list(res.tagged("CASE"))
+    if len(icases) != 22 or sum(1 for c in icases if c["level"]) != 8:
+        raise MachineryError("expected 22 ISA cases, 8 of them at tabulated levels")
+    pmap(ctx, replay_isa, [icases], procs=1)
+    ctx.traces += len(icases)
     if ctx.notes.get("standin_constants_not_effective"):
         ctx.notes["canary"] = "stand-in constants did not take effect: the IWV clauses were NOT exercised in this run"
     ctx.traces += len(cases) + len(acases)
